@@ -259,8 +259,10 @@ func (h *Handshaker) Handshake(proxyApp proxy.AppConns) error {
 		"protocol-version", res.AppVersion,
 	)
 
-	// Only set the version if there is no existing state.
-	if h.initialState.LastBlockHeight == 0 {
+	// Only set the version if there is no existing state. Once the application
+	// has committed a block, InitChain has been answered and the state saved
+	// with the version that the chain's first block was made with: keep it.
+	if h.initialState.LastBlockHeight == 0 && blockHeight == 0 {
 		h.initialState.Version.Consensus.App = res.AppVersion
 	}
 
